@@ -631,3 +631,14 @@ Example dotdot_nonvacuous :
   (forall aw, In aw (dom_k (fun _ => [121]%N) (rho0 start_c) vs_ None) ->
      K_pushin_empty str (dom_k (fun _ => [121]%N)) (fun _ => []) (upds str rho0 aw) vb (InVar vs_) None = false).
 Proof. vm_compute. repeat split; try reflexivity. Qed.
+
+(* the syntactic test `not qfd_vars.intersection(e.free_variables())` implies the semantic premise `indep` of the
+   one-step theorems C08_pushin_and_partial / _or_partial / _absent_partial *)
+Theorem indep_syntactic : forall (D : Type) aev pev (dom : D -> var -> option mexpr -> list (list (var * D))) idom tval,
+  (forall d v m asg, In asg (dom d v m) -> forall x, existsb (fun p => var_eqb (fst p) x) asg = vmem x (qbound v m)) ->
+  forall rho v i qfd e, vmem v qfd = true -> inq_ok e = true -> isnil (vinter qfd (fv e)) = true ->
+    indep D aev pev dom idom tval rho v i None e.
+Proof.
+  intros D aev pev dom idom tval Hk rho v i qfd e Hq Hok Hi asg Ha.
+  exact (indep_syn D aev pev dom idom tval Hk v qfd e Hok (proj1 (vmem_In _ _) Hq) Hi rho _ asg Ha).
+Qed.
